@@ -371,10 +371,12 @@ class _Exporter:
                             )
                         self.skipped_initializers[init_py_name] = init
                         continue
+                # The output keeps its ONNX name: _translate_node translates it (once), and
+                # inlined constants are recorded under the name that references use.
                 node = onnx.helper.make_node(  # noqa: TID251
                     "Constant",
                     [],
-                    [self._translate_onnx_var(init.name)],  # type: ignore[list-item]
+                    [init.name],
                     value=init,
                 )
                 pyinit = self._translate_node(node, opsets, indent=indent)
